@@ -1177,10 +1177,16 @@ def _suffix_table(ctx):
         f = prog.func('task._ImmutableTaskList.__call__.search')
         resolver = _find_resolver(prog, f)
         a = f.node.args
-        if not a.args or a.kwarg is None:
+        outer_kw = f.parent.node.args.kwarg.arg if f.parent is not None and getattr(f.parent.node, 'args', None) is not None \
+            and f.parent.node.args.kwarg is not None else None
+        if a.args and a.kwarg is None and outer_kw and len(a.args) == 1 and outer_kw in names_in(f.node) and not any(
+                isinstance(n, ast.Name) and n.id == outer_kw and isinstance(n.ctx, ast.Store) for n in ast.walk(f.parent.node)):
+            task_p, kw_p = a.args[0].arg, outer_kw          # search(t): a closure that iterates the enclosing **kwargs directly
+        elif not a.args or a.kwarg is None:
             o.undecided(f, f.node, 'search signature', "search is not `search(task, **filters)`")
             return
-        task_p, kw_p = a.args[0].arg, a.kwarg.arg
+        else:
+            task_p, kw_p = a.args[0].arg, a.kwarg.arg
         loops = []
 
         def on_for(st, env):
@@ -1910,7 +1916,12 @@ def _kw_filter(ctx, f, search, at, pol, KW, Tn):
     star = [k for k in c.keywords if k.arg is None]
     if not (len(c.args) == 1 and isinstance(c.args[0], ast.Name) and c.args[0].id == Tn):
         return ('bad', f"`{src(c)}` does not evaluate the filters on the task being selected")
-    if len(star) != 1 or len(c.keywords) != 1 or not (isinstance(star[0].value, ast.Name) and star[0].value.id == KW):
+    sa_ = search.node.args
+    closes = sa_.kwarg is None and len(sa_.args) == 1 and KW in names_in(search.node) and not any(
+        isinstance(n, ast.Name) and n.id == KW and isinstance(n.ctx, ast.Store) for n in ast.walk(f.node))
+    if closes and not c.keywords:
+        pass                         # search(t) reads the enclosing **kwargs itself (never reassigned)
+    elif len(star) != 1 or len(c.keywords) != 1 or not (isinstance(star[0].value, ast.Name) and star[0].value.id == KW):
         return ('bad', f"`{src(c)}` does not receive the keyword filters `**{KW}` unchanged")
     if at is c or match(f"bool({src(c)})", at) or match(f"not {KW} or {src(c)}", at) or match(f"{src(c)} is True", at):
         if pol:
